@@ -42,14 +42,20 @@ def concretise(b, rnd, quick, cid):
     out = []
     if mod == "download":
         variants = [(0, 0), (1, 0), (7, 256), (1014, 4096), (65535, 0), (-1, 65535), (0, 256), (-1, 1300), (1014, 65535), (7, 65535)]
+        dense = [(0, m) for m in range(DL_FLOOR, DL_FLOOR + 24)] + [(0, 1299), (0, 1301), (-1, 65534), (1014, 1043), (1014, 1044), (2, 300)]
         floor_variants = [(0, 64), (0, 150), (7, 100)]
     elif mod == "upload":
         variants = [(0, 0), (0, 1300), (0, 4096), (0, 65535), (0, 1100), (0, UP_FIT), (0, UP_FIT - 1), (0, 1040), (0, 256), (0, 512)]
+        dense = [(0, m) for m in range(UP_FIT + 1, UP_FIT + 24)] + [(0, 1299), (0, 1301), (0, 2048), (0, 65534)]
         floor_variants = []
     else:
         variants = [(0, 0), (0, 256), (0, 65535), (0, 4096), (0, 300)]
+        dense = [(0, m) for m in range(WGET_FLOOR, WGET_FLOOR + 8)]
         floor_variants = [(0, 64), (0, 120)]
-    picks = rnd.sample(variants, 1 if quick else 3)
+    if quick:
+        picks = rnd.sample(variants, 1)
+    else:
+        picks = rnd.sample(variants, min(len(variants), 5)) + rnd.sample(dense, 3)
     if floor_variants and rnd.random() < (0.08 if quick else 0.25):
         picks.append(rnd.choice(floor_variants) + ("floor",))
     for p in picks:
